@@ -32,49 +32,31 @@ Inductive case :=
     (* ps: the objects that serve as prototypes, vs: initial a, b, c *)
 | CIntStr (n : Z) (obs : list Z).   (* ToString of a number value that otto holds as a Go integer *)
 
-(* finding classes, attributed by switching otto's deviations on one after the other:
-   1 ToInt32/ToUint32/ToUint16 through int64 (|x| >= 2^63)
+(* finding classes, attributed by switching otto's remaining deviations on one after the other:
    2 ToNumber(string) accepts Go float/int syntax outside 9.3.1
    3 ToNumber(string) rejects hex literals >= 2^63
    4 string < on UTF-8 bytes instead of UTF-16 units
-   5 a + b reads b after ToPrimitive(a)
-   6 (x op= e read x after evaluating e: repaired in /repo by commit 3657e0a, class no longer produced)
-   7 ToString of a number held as a Go integer prints every integer digit
-   8 instanceof with a bound function on the right does not use the target's [[HasInstance]] *)
+   7 ToString of a number held as a Go integer prints every integer digit (CIntStr)
+   Classes 1 (ToInt32 family beyond 2^63), 5 (a + b order), 6 (x op= e order) and 8 (instanceof on a
+   bound function) were repaired in /repo (02e659b, 0c8f777, 3657e0a, ea21c58) and are no longer
+   produced: the old behaviour would now be a violation. *)
 Definition overaccept (s : list Z) : numlit :=
   match string_to_number s with NLNaN => model_str2num s | r => r end.
 
-Definition h1 : dialect := {|
-  d_int32 := m_to_int32; d_uint32 := m_to_uint32; d_uint16 := m_to_uint16; d_integer := m_to_integer; d_div := m_divide;
-  d_str2num := string_to_number; d_strlt := units_lt;
-  d_plus_late := false; d_cmp_late := false; d_otto_cmp := true; d_bound_own := false |}.
 Definition h2 : dialect := {|
   d_int32 := m_to_int32; d_uint32 := m_to_uint32; d_uint16 := m_to_uint16; d_integer := m_to_integer; d_div := m_divide;
-  d_str2num := overaccept; d_strlt := units_lt;
-  d_plus_late := false; d_cmp_late := false; d_otto_cmp := true; d_bound_own := false |}.
+  d_str2num := overaccept; d_strlt := units_lt; d_otto_cmp := true |}.
 Definition h3 : dialect := {|
   d_int32 := m_to_int32; d_uint32 := m_to_uint32; d_uint16 := m_to_uint16; d_integer := m_to_integer; d_div := m_divide;
-  d_str2num := model_str2num; d_strlt := units_lt;
-  d_plus_late := false; d_cmp_late := false; d_otto_cmp := true; d_bound_own := false |}.
-Definition h4 : dialect := {|
-  d_int32 := m_to_int32; d_uint32 := m_to_uint32; d_uint16 := m_to_uint16; d_integer := m_to_integer; d_div := m_divide;
-  d_str2num := model_str2num; d_strlt := m_str_lt;
-  d_plus_late := false; d_cmp_late := false; d_otto_cmp := true; d_bound_own := false |}.
-Definition h5 : dialect := {|
-  d_int32 := m_to_int32; d_uint32 := m_to_uint32; d_uint16 := m_to_uint16; d_integer := m_to_integer; d_div := m_divide;
-  d_str2num := model_str2num; d_strlt := m_str_lt;
-  d_plus_late := true; d_cmp_late := false; d_otto_cmp := true; d_bound_own := false |}.
+  d_str2num := model_str2num; d_strlt := units_lt; d_otto_cmp := true |}.
 
 Definition oobs_eqb := option_eqb obs_eqb.
 
 Definition class_of (ps vs : list value) (e : expr) : Z :=
   let s := run spec_d ps vs e in
-  if negb (oobs_eqb (run h1 ps vs e) s) then 1
-  else if negb (oobs_eqb (run h2 ps vs e) s) then 2
+  if negb (oobs_eqb (run h2 ps vs e) s) then 2
   else if negb (oobs_eqb (run h3 ps vs e) s) then 3
-  else if negb (oobs_eqb (run h4 ps vs e) s) then 4
-  else if negb (oobs_eqb (run h5 ps vs e) s) then 5
-  else 8.
+  else 4.
 
 Definition verdict (c : case) : Z * Z :=
   match c with
@@ -86,7 +68,6 @@ Definition verdict (c : case) : Z * Z :=
       end
   | CIntStr n obs =>
       let d := of_int n in
-      if nts_declined d then declined else
       match number_to_string d with
       | Some s => judge zlist_eqb obs (int_to_string n) s 7
       | None => declined
